@@ -6,6 +6,7 @@ mod panics;
 mod rng;
 mod scenarios;
 mod simio;
+mod subs;
 mod wire;
 
 use framework::{Scenario, Tier};
